@@ -9,23 +9,28 @@
 import json, os, random, re, threading
 import vlib, engine_lib as el
 
+# the component-definition registry as a concurrent object (what the goroutines of the scanning phase share); also run by C10
+REG_CONFIGS = {
+    "quick": [dict(G="{1, 2}", Keys="{1, 2}", OpKinds='{"RGetOrReg", "RReg", "RByName", "RMetas"}', MaxOps=3)],
+    "thorough": [dict(G="{1, 2, 3}", Keys="{1, 2}", OpKinds='{"RGetOrReg", "RReg", "RByName", "RMetas"}', MaxOps=4)],
+}
 SM_CONFIGS = {
     "quick": [dict(G="{1, 2, 3}", Keys="{1}", OpKinds='{"LoadOrStoreFn", "Load", "Delete", "Store"}', MaxOps=3),
               dict(G="{1, 2}", Keys="{1, 2}", OpKinds='{"LoadOrStoreFn", "LoadOrStore", "Delete"}', MaxOps=3),
-              dict(G="{1, 2}", Keys="{1}", OpKinds='{"Put", "Exists", "Remove", "LoadOrStoreFn"}', MaxOps=3)],
+              dict(G="{1, 2}", Keys="{1}", OpKinds='{"Put", "Exists", "Remove", "LoadOrStoreFn"}', MaxOps=3)] + REG_CONFIGS["quick"],
     "thorough": [dict(G="{1, 2, 3}", Keys="{1}", OpKinds='{"LoadOrStoreFn", "Load", "Delete", "Store", "LoadOrStore"}', MaxOps=4),
                  dict(G="{1, 2}", Keys="{1, 2}", OpKinds='{"LoadOrStoreFn", "LoadOrStore", "Delete", "Load", "Store"}', MaxOps=4),
                  dict(G="{1, 2, 3}", Keys="{1}", OpKinds='{"Put", "Exists", "Remove", "LoadOrStoreFn"}', MaxOps=4),
-                 dict(G="{1, 2, 3}", Keys="{1}", OpKinds='{"LoadOrStoreFn"}', MaxOps=5)],
+                 dict(G="{1, 2, 3}", Keys="{1}", OpKinds='{"LoadOrStoreFn"}', MaxOps=5)] + REG_CONFIGS["thorough"],
 }
 
 
-def syncmap_phase(run, tier, wd, binary):
+def syncmap_phase(run, tier, wd, binary, configs=None, what="sync2.Map/ConcurrentSets"):
     sd = os.path.join(wd, "sm")
     os.makedirs(sd)
     vlib.stage_specs(sd, ["SyncMap.tla", "TraceSyncMap.tla"])
     drift = 0
-    for i, c in enumerate(SM_CONFIGS[tier]):
+    for i, c in enumerate(configs or SM_CONFIGS[tier]):
         consts = dict(c, Repaired="TRUE")
         vlib.write_cfg(os.path.join(sd, "sm%d.cfg" % i), constants=consts, spec="Spec",
                        invariants=["C20_Linearizable", "C20_OneWinner", "Export"])
@@ -41,7 +46,7 @@ def syncmap_phase(run, tier, wd, binary):
         if p.returncode != 0:
             raise vlib.Infra("syncmap replay failed: " + p.stderr[-800:])
         groups = el.split_trace(os.path.join(sd, "st%d.ndjson" % i), marker='"a":"hist"')
-        stm, fm = el.validate_groups(sd, groups, "TraceSyncMap", consts, ["C20_OneWinner", "M_C20_Linearizable"], [], "m%d" % i, spec="MonitorSpec")
+        stm, fm = el.validate_groups(sd, groups, "TraceSyncMap", consts, ["C20_OneWinner", "M_C20_Linearizable", "M_C20_Returns"], [], "m%d" % i, spec="MonitorSpec")
         stc, fc = el.validate_groups(sd, groups, "TraceSyncMap", consts, ["C20_OneWinner", "C20_Linearizable"], [], "c%d" % i)
         run.cov["states"] += stm["states"] + stc["states"]
         run.cov["transitions"] += stm["generated"] + stc["generated"]
@@ -54,7 +59,7 @@ def syncmap_phase(run, tier, wd, binary):
                         raise vlib.Infra("syncmap monitor could not consume a history: " + f["tlc"][:400])
                     drift += 1
                     continue
-                run.violation("real sync2.Map/ConcurrentSets history (%s): %s violated" % (layer, f["name"]),
+                run.violation("real %s history (%s): %s violated" % (what if not any(a.get("op", "").startswith("R") and a.get("op") != "Remove" for a in hist) else "definition registry", layer, f["name"]),
                               dict(kind="syncmap", schedule=hist, operator=f["name"], tlc=f["tlc"][:1500]))
         for h in sch[:: max(1, len(sch) // 4000)]:
             run.count_case(h, any(a["a"] == "release" for a in h))
